@@ -192,6 +192,46 @@ Proof.
 Qed.
 Print Assumptions c18_documented_aliases.
 
+(* the DOCUMENTED general-purpose registers of every type, written out here (not taken from the source): REGISTERS is exactly
+   this list, in this order - so registers() / valid_registers() (c18_enumerations) list exactly these, and together with
+   c18_documented_aliases the names set_register accepts are exactly these and the documented aliases *)
+Definition documented_registers : list (name * list name) :=
+  [([65; 109; 100; 54; 52], [[114; 97; 120]; [114; 100; 120]; [114; 99; 120]; [114; 98; 120]; [114; 115; 105]; [114; 100; 105]; [114; 98; 112]; [114; 115; 112]; [114; 56]; [114; 57]; [114; 49; 48]; [114; 49; 49]; [114; 49; 50]; [114; 49; 51]; [114; 49; 52]; [114; 49; 53]; [114; 105; 112]]);
+   ([65; 114; 109], [[114; 48]; [114; 49]; [114; 50]; [114; 51]; [114; 52]; [114; 53]; [114; 54]; [114; 55]; [114; 56]; [114; 57]; [114; 49; 48]; [114; 49; 50]; [102; 112]; [115; 112]; [108; 114]; [112; 99]]);
+   ([65; 114; 109; 54; 52], [[120; 48]; [120; 49]; [120; 50]; [120; 51]; [120; 52]; [120; 53]; [120; 54]; [120; 55]; [120; 56]; [120; 57]; [120; 49; 48]; [120; 49; 49]; [120; 49; 50]; [120; 49; 51]; [120; 49; 52]; [120; 49; 53]; [120; 49; 54]; [120; 49; 55]; [120; 49; 56]; [120; 49; 57]; [120; 50; 48]; [120; 50; 49]; [120; 50; 50]; [120; 50; 51]; [120; 50; 52]; [120; 50; 53]; [120; 50; 54]; [120; 50; 55]; [120; 50; 56]; [102; 112]; [108; 114]; [115; 112]; [112; 99]]);
+   ([79; 108; 100; 65; 114; 109; 54; 52], [[120; 48]; [120; 49]; [120; 50]; [120; 51]; [120; 52]; [120; 53]; [120; 54]; [120; 55]; [120; 56]; [120; 57]; [120; 49; 48]; [120; 49; 49]; [120; 49; 50]; [120; 49; 51]; [120; 49; 52]; [120; 49; 53]; [120; 49; 54]; [120; 49; 55]; [120; 49; 56]; [120; 49; 57]; [120; 50; 48]; [120; 50; 49]; [120; 50; 50]; [120; 50; 51]; [120; 50; 52]; [120; 50; 53]; [120; 50; 54]; [120; 50; 55]; [120; 50; 56]; [102; 112]; [108; 114]; [115; 112]; [112; 99]]);
+   ([77; 105; 112; 115], [[103; 112]; [115; 112]; [102; 112]; [114; 97]; [112; 99]; [115; 48]; [115; 49]; [115; 50]; [115; 51]; [115; 52]; [115; 53]; [115; 54]; [115; 55]]);
+   ([80; 112; 99], [[115; 114; 114; 48]; [115; 114; 114; 49]; [114; 48]; [114; 49]; [114; 50]; [114; 51]; [114; 52]; [114; 53]; [114; 54]; [114; 55]; [114; 56]; [114; 57]; [114; 49; 48]; [114; 49; 49]; [114; 49; 50]; [114; 49; 51]; [114; 49; 52]; [114; 49; 53]; [114; 49; 54]; [114; 49; 55]; [114; 49; 56]; [114; 49; 57]; [114; 50; 48]; [114; 50; 49]; [114; 50; 50]; [114; 50; 51]; [114; 50; 52]; [114; 50; 53]; [114; 50; 54]; [114; 50; 55]; [114; 50; 56]; [114; 50; 57]; [114; 51; 48]; [114; 51; 49]; [99; 114]; [120; 101; 114]; [108; 114]; [99; 116; 114]; [109; 113]; [118; 114; 115; 97; 118; 101]]);
+   ([80; 112; 99; 54; 52], [[115; 114; 114; 48]; [115; 114; 114; 49]; [114; 48]; [114; 49]; [114; 50]; [114; 51]; [114; 52]; [114; 53]; [114; 54]; [114; 55]; [114; 56]; [114; 57]; [114; 49; 48]; [114; 49; 49]; [114; 49; 50]; [114; 49; 51]; [114; 49; 52]; [114; 49; 53]; [114; 49; 54]; [114; 49; 55]; [114; 49; 56]; [114; 49; 57]; [114; 50; 48]; [114; 50; 49]; [114; 50; 50]; [114; 50; 51]; [114; 50; 52]; [114; 50; 53]; [114; 50; 54]; [114; 50; 55]; [114; 50; 56]; [114; 50; 57]; [114; 51; 48]; [114; 51; 49]; [99; 114]; [120; 101; 114]; [108; 114]; [99; 116; 114]; [118; 114; 115; 97; 118; 101]]);
+   ([83; 112; 97; 114; 99], [[103; 95; 114; 48]; [103; 95; 114; 49]; [103; 95; 114; 50]; [103; 95; 114; 51]; [103; 95; 114; 52]; [103; 95; 114; 53]; [103; 95; 114; 54]; [103; 95; 114; 55]; [103; 95; 114; 56]; [103; 95; 114; 57]; [103; 95; 114; 49; 48]; [103; 95; 114; 49; 49]; [103; 95; 114; 49; 50]; [103; 95; 114; 49; 51]; [103; 95; 114; 49; 52]; [103; 95; 114; 49; 53]; [103; 95; 114; 49; 54]; [103; 95; 114; 49; 55]; [103; 95; 114; 49; 56]; [103; 95; 114; 49; 57]; [103; 95; 114; 50; 48]; [103; 95; 114; 50; 49]; [103; 95; 114; 50; 50]; [103; 95; 114; 50; 51]; [103; 95; 114; 50; 52]; [103; 95; 114; 50; 53]; [103; 95; 114; 50; 54]; [103; 95; 114; 50; 55]; [103; 95; 114; 50; 56]; [103; 95; 114; 50; 57]; [103; 95; 114; 51; 48]; [103; 95; 114; 51; 49]; [99; 99; 114]; [112; 99]; [110; 112; 99]; [121]; [97; 115; 105]; [102; 112; 114; 115]]);
+   ([88; 56; 54], [[101; 105; 112]; [101; 115; 112]; [101; 98; 112]; [101; 98; 120]; [101; 115; 105]; [101; 100; 105]; [101; 97; 120]; [101; 99; 120]; [101; 100; 120]; [101; 102; 108; 97; 103; 115]])].
+Theorem c18_documented_registers :
+  (forall v l, In (v, l) documented_registers -> exists c, In c all_contexts /\ ct_variant c = v /\ ct_registers c = l) /\
+  (forall c, In c all_contexts -> exists l, In (ct_variant c, l) documented_registers /\ ct_registers c = l) /\
+  (forall c, In c all_contexts -> forall n, In n (accepted c) <-> (In n (ct_registers c) \/ exists r, find_arm n (ct_memo c) = Some r)).
+Proof.
+  split; [|split].
+  - assert (H : forallb (fun e => existsb (fun c => name_eqb (ct_variant c) (fst e) && strs_eqb (ct_registers c) (snd e)) all_contexts)
+                        documented_registers = true) by (vm_compute; reflexivity).
+    intros v l Hin. rewrite forallb_forall in H. specialize (H _ Hin). cbn [fst snd] in H.
+    apply existsb_exists in H. destruct H as [c [Hc X]]. apply andb_true_iff in X. destruct X as [V R].
+    exists c. split; [exact Hc|]. split; [apply name_eqb_eq; exact V | apply strs_eqb_eq; exact R].
+  - assert (H : forallb (fun c => existsb (fun e => name_eqb (fst e) (ct_variant c) && strs_eqb (snd e) (ct_registers c)) documented_registers)
+                        all_contexts = true) by (vm_compute; reflexivity).
+    intros c Hc. rewrite forallb_forall in H. specialize (H c Hc). apply existsb_exists in H. destruct H as [[v l] [Hin X]].
+    cbn [fst snd] in X. apply andb_true_iff in X. destruct X as [V R]. apply name_eqb_eq in V. apply strs_eqb_eq in R. subst.
+    exists (ct_registers c). split; [exact Hin | reflexivity].
+  - intros c Hc n. pose proof (all_facts c Hc) as F. split.
+    + intro Hn. pose proof (f_acc_memo c F n Hn) as M. apply is_some_true in M. destruct M as [k Hk].
+      rewrite (memoize_exact c (f_cmp c F) (f_memo_tbl c F)) in Hk.
+      destruct (find_arm n (ct_memo c)) as [r|] eqn:E; [right; exists r; reflexivity|].
+      left. destruct (mem n (ct_registers c)) eqn:E2; [apply mem_In; exact E2 | discriminate].
+    + intro H. assert (I : In n (ct_registers c ++ names_of (ct_memo c))).
+      { apply in_or_app. destruct H as [H|[r H]]; [left; exact H | right; exact (find_arm_In _ _ _ _ H)]. }
+      apply (f_memo_acc c F) in I. apply is_some_true in I. destruct I as [x Hx]. exact (find_arm_In _ _ _ _ Hx).
+Qed.
+Print Assumptions c18_documented_registers.
+
 (* sequences of writes, of ANY length, through ANY strings (unknown names are refused and change nothing): the sequence
    never panics, and afterwards every accepted name reads the value written last through any spelling of its register -
    or what it read before, if no such write occurred; the dedicated accessors likewise *)
